@@ -113,12 +113,18 @@ structure SrvObs where
   frames : List Frame      -- response body frames (form relative to the reference response message)
 deriving DecidableEq, Repr
 
-/-- A response as presented to `client::Grpc` by the scripted transport. -/
+/-- A response as presented to `client::Grpc` by its transport: `grpc-encoding` values, a
+`grpc-status` in the headers (trailers-only) if any, the body's frames, the trailers'
+`grpc-status` if any; `accVals` = the response's `grpc-accept-encoding` header values (they end
+up in the metadata of a trailers-only error), `peerCls` = the class of the peer's own status
+message (`peerStatus` for a scripted peer; a real tonic server's refusal carries its own). -/
 structure CliResp where
   encVals : List Bytes
   hdrStatus : Option Nat
   frames : List Frame
   trlStatus : Option Nat
+  accVals : List Bytes := []
+  peerCls : ErrCls := .peerStatus
 deriving DecidableEq, Repr
 
 /-- Everything observed of one client call: the request that reached the transport and the
